@@ -523,7 +523,7 @@ func (env *Env) valOfSSA(v ssa.Value, isAddr bool) Val {
 	fr := env.fr
 	if isAddr {
 		loc := fr.addr(v)
-		return Val{T: env.te().Load(env.st, loc), Typ: loc.Typ, Loc: loc}
+		return env.loaded(Val{T: env.te().Load(env.st, loc), Typ: loc.Typ, Loc: loc})
 	}
 	return Val{T: fr.val(v), Typ: v.Type()}
 }
@@ -718,6 +718,39 @@ func (env *Env) evalSel(e *SSel) (Val, error) {
 	return env.selectField(x, e.Sel, e)
 }
 
+// loaded records what holds for every value read from memory (integer ranges, well-formed slice headers) when the
+// read is a closed term; values read under a quantifier get no such fact.
+func (env *Env) loaded(v Val) Val {
+	if v.Typ == nil || env.dry {
+		return v
+	}
+	switch v.T.Sort {
+	case SInt, SSlice, SStr:
+	default:
+		return v
+	}
+	if v.T.Sort == SInt {
+		if _, _, ok := intRange(v.Typ); !ok {
+			return v
+		}
+	}
+	for _, t := range smtTokens(v.T.S) {
+		if strings.HasPrefix(t, "q_") || strings.HasPrefix(t, "|q_") {
+			return v
+		}
+	}
+	vc := env.fr.vc
+	if vc.typedSeen == nil {
+		vc.typedSeen = map[string]bool{}
+	}
+	if vc.typedSeen[v.T.S] {
+		return v
+	}
+	vc.typedSeen[v.T.S] = true
+	env.fr.assumeTyped(v.Typ, v.T)
+	return v
+}
+
 func (env *Env) lookupIfAllowed(name string) (Val, bool) {
 	if env.noLookup {
 		return Val{}, false
@@ -742,13 +775,13 @@ func (env *Env) selectField(x Val, sel string, e SExpr) (Val, error) {
 			if cur.Loc != nil && cur.Loc.Kind == "obj" && false {
 				loc = te.FieldLoc(pt, i, cur.Loc.Base)
 			}
-			cur = Val{T: te.Load(env.st, loc), Typ: loc.Typ, Loc: loc}
+			cur = env.loaded(Val{T: te.Load(env.st, loc), Typ: loc.Typ, Loc: loc})
 			continue
 		}
 		if te.isStructVal(t) {
 			if cur.Loc != nil && cur.Loc.Kind == "obj" {
 				loc := te.FieldLoc(t, i, cur.Loc.Base)
-				cur = Val{T: te.Load(env.st, loc), Typ: loc.Typ, Loc: loc}
+				cur = env.loaded(Val{T: te.Load(env.st, loc), Typ: loc.Typ, Loc: loc})
 				continue
 			}
 			si := te.StructInfo(t)
@@ -789,7 +822,7 @@ func (env *Env) evalIndex(e *SIndex) (Val, error) {
 	switch xt := x.Typ.Underlying().(type) {
 	case *types.Slice:
 		loc := te.ElemLoc(xt.Elem(), sArr(x.T), te.sIdx(sOff(x.T), i.T))
-		return Val{T: te.Load(env.st, loc), Typ: xt.Elem(), Loc: loc}, nil
+		return env.loaded(Val{T: te.Load(env.st, loc), Typ: xt.Elem(), Loc: loc}), nil
 	case *types.Basic:
 		if x.T.Sort == SStr {
 			return Val{T: strAt(x.T, i.T), Typ: types.Typ[types.Uint8]}, nil
@@ -1345,7 +1378,8 @@ func (env *Env) evalModTargets(e SExpr) ([]modTarget, error) {
 					}
 					return ts, nil
 				}
-				return []modTarget{{heap: te.elemHeap(el), sort: arraySort(SInt, arraySort(SInt, te.SortOf(el))), base: sArr(x.T)}}, nil
+				empty := tEq(sCap(x.T), tInt(0))
+				return []modTarget{{heap: te.elemHeap(el), sort: arraySort(SInt, arraySort(SInt, te.SortOf(el))), base: sArr(x.T), vacuous: &empty}}, nil
 			case "pointee":
 				// pointee(v): everything stored in the object that interface value v points to (e.g. the target of a decoder)
 				x, err := env.eval(c.Args[0])
